@@ -49,12 +49,12 @@ func RunOne(sc *Scenario, seed uint64, o RunOpts) *Outcome {
 		}()
 		sc.Run(ctx)
 	})
-	out := &Outcome{Seed: seed, Hash: s.Hash(), Steps: s.Steps(), SimNs: s.Now(), Trunc: s.Trunc, Counts: s.Counts,
+	out := &Outcome{Seed: seed, Hash: s.Hash(), Steps: s.Steps(), SimNs: s.Now(), Trunc: s.Trunc, Counts: s.CountsMap(),
 		Strategy: s.StrategyName(), Tape: s.Recorded(), LogTail: s.LogTail(), Stalled: s.StalledString()}
 	if ctx != nil {
 		out.Desc = ctx.Desc()
 	}
-	out.ReplayBad = s.Counts["replay:exhausted"] + s.Counts["replay:out-of-range"]
+	out.ReplayBad = s.Counter("replay:exhausted") + s.Counter("replay:out-of-range")
 	switch {
 	case s.Failed != nil:
 		out.Violation = s.Failed
